@@ -14,6 +14,7 @@ import (
 	"net/http/httptest"
 	"os"
 	"path/filepath"
+	"runtime"
 	"sort"
 	"strconv"
 	"strings"
@@ -29,11 +30,26 @@ import (
 	"github.com/cnotch/ipchub/config"
 	"github.com/cnotch/ipchub/media"
 	hlssvc "github.com/cnotch/ipchub/service/hls"
+	"github.com/cnotch/ipchub/utils/verifhook"
 	"github.com/cnotch/xlog"
 )
 
 var wireMu sync.Mutex // config and the stream registry are process-wide
 var wireSeq int
+
+// tsPops counts how often a TS muxer goroutine came back to its queue for the next frame
+// (schedule point "tsmuxer.beforePop" of mpegts.Muxer.process): the n-th frame pushed to a muxer
+// has been processed completely — packetised, written to the segment, segment reaped — when the
+// muxer has come back n+1 times.  Only wire sessions create TS muxers and they run one at a time.
+var tsPops int64
+
+func init() {
+	verifhook.Set(func(point string, id uint32) {
+		if point == "tsmuxer.beforePop" {
+			atomic.AddInt64(&tsPops, 1)
+		}
+	})
+}
 
 func wireSdp(k *hcase) string {
 	ch := 1
@@ -51,7 +67,7 @@ func genWireCase(c *Ctx) *hcase {
 	k := &hcase{frag: 5, rate: []int{8000, 16000}[c.Rng.Intn(2)], disk: c.Rng.Chance(40), tag: "wire"}
 	k.path = []string{"/wire/cam", "/w"}[c.Rng.Intn(2)]
 	if c.Rng.Chance(60) {
-		k.token = "tok" + strconv.Itoa(c.Rng.Intn(1000))
+		k.token = genToken(c)
 	}
 	// real-looking parameter sets (640x480 baseline) so that the SDP parser accepts them
 	k.sps, _ = base64.StdEncoding.DecodeString("Z0IAKeKQFAe2AtwEBAaQeJEV")
@@ -125,6 +141,7 @@ func runWire(k *hcase, in string) (res result) {
 	config.VerifSetHls(k.frag, segPath)
 	xlog.ReplaceGlobal(xlog.New(xlog.NewNopCore()))
 	path := k.path
+	pops0 := atomic.LoadInt64(&tsPops) // before the muxer goroutine of this stream exists
 	s := media.NewStream(path, wireSdp(k))
 	media.Regist(s)
 	defer func() {
@@ -141,18 +158,24 @@ func runWire(k *hcase, in string) (res result) {
 		res.goFinds = append(res.goFinds, Finding{Kind: "oracle", Class: class, Case: in, Impl: impl, Spec: spec})
 	}
 	captured := map[int][]byte{}
-	// wait until the muxer goroutine has processed the last video frame handed in: the open
-	// segment's duration then reflects that frame's pts
-	settle := func(lastVideoPts int64) bool {
-		deadline := time.Now().Add(30 * time.Second)
-		for time.Now().Before(deadline) {
-			cur, ok, _, _ := sg.VerifCurrent()
-			if ok && (lastVideoPts < cur.StartPts || ticksOf(cur.Duration) == lastVideoPts-cur.StartPts) {
+	// wait until the muxer goroutine has processed every frame handed in so far (it is back at its
+	// queue): an event, not a delay; the budget only bounds a goroutine that is gone or stuck
+	pushed := int64(0)
+	settle := func() bool {
+		deadline := time.Now().Add(wireSettleBudget)
+		for n := 0; ; n++ {
+			if atomic.LoadInt64(&tsPops)-pops0 >= pushed+1 {
 				return true
 			}
-			time.Sleep(300 * time.Microsecond)
+			if time.Now().After(deadline) {
+				return false
+			}
+			if n < 200 {
+				runtime.Gosched()
+			} else {
+				time.Sleep(200 * time.Microsecond)
+			}
 		}
-		return false
 	}
 	capture := func() {
 		for _, sv := range pl.VerifSegments() {
@@ -247,33 +270,40 @@ func runWire(k *hcase, in string) (res result) {
 				Impl: fmt.Sprintf("panic in a client call or in Close: %v", r), Spec: "no panic"})
 		}
 	}()
+	// Once the muxer goroutine has stopped taking frames (it is gone after a panic, or stuck) the
+	// session goes on without waiting: what the client is then served — frames missing from the
+	// segments, a playlist that no longer advances — is judged like everything else, so the verdict
+	// rests on the state and not on the clock.
 	stalled := false
 	for _, e := range k.evs {
 		switch e.kind {
 		case 'v':
 			res.tokens = append(res.tokens, fmt.Sprintf("v:%d:%d:%s", e.dts, e.pts, Hx(e.payload)))
 			s.WriteFrame(&codec.Frame{MediaType: codec.MediaTypeVideo, Dts: e.dts, Pts: e.pts, Payload: e.payload})
-			if !settle(e.pts * 90000 / 1000000000) {
+			pushed++
+			if !stalled && !settle() {
 				stalled = true
 			}
 			capture()
 		case 'a':
 			res.tokens = append(res.tokens, fmt.Sprintf("a:%d:%s", e.pts, Hx(e.payload)))
 			s.WriteFrame(&codec.Frame{MediaType: codec.MediaTypeAudio, Dts: e.pts, Pts: e.pts, Payload: e.payload})
+			pushed++
+			if !stalled && !settle() {
+				stalled = true
+			}
+			capture()
 		case 'Q':
 			query()
 		}
-		if stalled {
-			break
-		}
 	}
 	if stalled {
-		res.goFinds = append(res.goFinds, Finding{Kind: "corr", Class: "wire-stalled", Case: in, Impl: "the TS muxer goroutine did not process a video frame within 30 s"})
-		res.panicked = true // what follows is not comparable
-		return
+		res.notes["wire-stalled"] = 1
+		res.goFinds = append(res.goFinds, Finding{Kind: "corr", Class: "wire-muxer-stopped", Case: in,
+			Impl: fmt.Sprintf("the TS muxer goroutine did not come back for the next frame within %v", wireSettleBudget)})
 	}
 	query()
-	if cur, ok, _, _ := sg.VerifCurrent(); ok && !k.disk {
+	if cur, ok, _, _ := sg.VerifCurrent(); ok {
 		res.tokens = append(res.tokens, fmt.Sprintf("C:%d:%s", cur.SequenceNo, Hx(sg.VerifCurrentBytes())))
 	}
 	// Stream.Close closes the muxer, the generator and the playlist: nothing may be left behind
@@ -342,18 +372,27 @@ func stressPlaylist(c *Ctx) {
 	}
 	token := strings.Repeat("k", 1<<19)
 	var stop int32
+	var adds int64 // roll-overs started so far
 	var wg sync.WaitGroup
 	wg.Add(1)
 	go func() {
 		defer wg.Done()
 		for atomic.LoadInt32(&stop) == 0 {
+			atomic.AddInt64(&adds, 1)
 			add()
-			time.Sleep(50 * time.Microsecond)
+			runtime.Gosched()
 		}
 	}()
-	rounds := c.Budget(25, 200)
+	// A round counts when a roll-over was started while the playlist was being rendered (it either
+	// waited for the read lock or ran inside the rendering): the run goes on until enough rounds
+	// counted; the wall-clock cap only ends the stress early, it is never a verdict.
+	want := c.Budget(40, 400)
+	overlapped, rounds := 0, 0
+	capAt := time.Now().Add(time.Duration(c.Budget(20, 120)) * time.Second)
 	bad := ""
-	for i := 0; i < rounds && bad == ""; i++ {
+	for overlapped < want && bad == "" && time.Now().Before(capAt) {
+		rounds++
+		a0 := atomic.LoadInt64(&adds)
 		func() {
 			defer func() {
 				if r := recover(); r != nil {
@@ -361,6 +400,9 @@ func stressPlaylist(c *Ctx) {
 				}
 			}()
 			b, err := pl.M3u8(token)
+			if atomic.LoadInt64(&adds) != a0 {
+				overlapped++
+			}
 			if err != nil {
 				bad = "M3u8 failed although three segments are listed: " + err.Error()
 				return
@@ -402,11 +444,12 @@ func stressPlaylist(c *Ctx) {
 				}
 			}
 		}()
-		c.Eval(fmt.Sprintf("stress-m3u8-%d", i), true)
+		c.Eval(fmt.Sprintf("stress-m3u8-%d", rounds), true)
 	}
 	atomic.StoreInt32(&stop, 1)
 	wg.Wait()
-	c.CountN("stress-playlists-served-during-rollover", rounds)
+	c.CountN("stress-playlists-served", rounds)
+	c.CountN("stress-playlists-with-a-rollover-started-meanwhile", overlapped)
 	if bad != "" {
 		c.Find(Finding{Kind: "oracle", Class: "playlist-torn-by-concurrent-rollover", Case: "stress m3u8 during rollover", Impl: bad,
 			Spec: "every served playlist lists three consecutive complete segments consistently", Detail: "Playlist.M3u8 concurrent with addSegment"})
